@@ -17,11 +17,22 @@ def harnesses(tier, findings):
     hs.append(inst(2, 2, 0, 0, 1, excl=excl))
     hs.append(inst(2, 2, 0, 1, 0, excl=excl))
     if tier == "thorough":
-        for cl in cls:
-            hs.append(inst(2, 2, 1, 1, cl, excl=excl, timeout=3000)) if cl != 1 else None
+        for cl in (0, 2):
+            hs.append(inst(2, 2, 1, 1, cl, excl=excl, timeout=3000))
+        for cl in (0, 1, 2):
             hs.append(inst(3, 2, 1, 0, cl, ring=3, excl=excl, timeout=3000))
+        for cl in (0, 1):
             hs.append(inst(2, 3, 1, 0, cl, ring=4, excl=excl, timeout=3000))
         hs.append(inst(2, 2, 0, 1, 1, excl=excl, timeout=3000))
+    # the monitor's view rests on the channel's read path: its induction steps are leaves here too
+    import importlib.util, os
+    _spec = importlib.util.spec_from_file_location("c01", os.path.join(VERIF, "props", "C01.py"))
+    _c01 = importlib.util.module_from_spec(_spec); _c01.H = H; _c01.VERIF = VERIF; _c01.REPO = REPO
+    _spec.loader.exec_module(_c01)
+    for hh in _c01._harnesses("quick", []):
+        if any(k in hh.name for k in ("step_read_map_R", "step_read_unmap", "step_read_map_join")):
+            hh.what = "G-CH leaf (channel read path, as C01): " + hh.what
+            hs.append(hh)
     if excl:
         w = inst(1, 1, 1, 0, 0, excl=False)
         w.expect = r"frames of a finished acquisition delivered after stop/abort returned"
